@@ -148,7 +148,8 @@ Print Assumptions C16_model_meets_oracle.
 
 (* ---- non-vacuity ---- *)
 Definition ex_fs : fs :=
-  [("/v", NDir); ("/v/victim", NDir); ("/v/victim/victim", NFile true (Some ("x", 1%N)));
+  [("/v", NDir); ("/v/victim", NDir); ("/v/victim/notation-..", NDir);
+   ("/v/victim/notation-../victim", NFile true (Some ("../victim", 1%N)));
    ("/v/p", NDir); ("/v/p/good", NDir); ("/v/p/good/notation-good", NFile true (Some ("good", 5%N)))].
 
 (* a traversal name is refused before anything is looked at, although a
@@ -156,9 +157,10 @@ Definition ex_fs : fs :=
 Example C16_example_rejected :
   let i := mk_input ex_fs [] "/v/p" (OGet "../victim") in
   name_op i "../victim" /\ valid_name "../victim" = false
-  /\ pjoin ["/v/p"; pjoin ["../victim"; bin_name "../victim"]] = "/v/victim/victim"
+  /\ pjoin ["/v/p"; pjoin ["../victim"; bin_name "../victim"]] = "/v/victim/notation-../victim"
+  /\ stat ex_fs "/v/victim/notation-../victim" = SOk (NFile true (Some ("../victim", 1%N)))
   /\ model i = mk_obs EInvalid MNone [] [] [] [].
-Proof. vm_compute. repeat split; auto. Show. Qed.
+Proof. vm_compute. repeat split; auto. Qed.
 
 (* an accepted name: executes <root>/good/notation-good, removes <root>/good *)
 Example C16_example_accepted :
